@@ -195,7 +195,7 @@ Scenario make_c22() {
     s.real_components = {"Node (update_swarm_plan, rebalance_swarm_plans, gather_peer_load)", "SwarmCoordinator::compute_plan", "KademliaTable::closest_peers", "Manifest codec"};
     s.stub_components = {"OS clock -> simulated", "peer loads/reputations injected into the node's ledgers rather than produced by real transfers (those are C23/C24)"};
     s.assumptions = {"candidates = closest_peers(chunk, max(sample,1)) minus self, evaluated by the driver at the same simulated instant as the plan"};
-    s.rule = "plan = swarm config (target, min providers, sample, shard config, rebalance interval) + 0..40 peers with expiries + 3..25 ops (store, ingest of manifests with 1..254 shards, announce, peer refresh, load injection, advance, tick); non-trivial = the manifest threshold, not target/min, decides the provider count; distinct = plan hash";
+    s.rule = "plan = swarm config (target, min providers, sample, shard config, rebalance interval) + 0..40 peers with expiries + 3..25 ops (store, ingest of manifests with 1..254 shards whose labels are base+i*stride (stride 1..8, ascending or descending), announce of such manifests, peer refresh, load injection, advance, tick); non-trivial = the manifest threshold, not target/min, decides the provider count; distinct = plan hash";
     s.gen = gen_c22; s.exec = exec_c22;
     s.kernel_knobs = [](const Plan&) { sk::Knobs k; k.preempt_per_1024 = 0; return k; };
     s.quick_runs = 30000; s.thorough_runs = 1500000; s.quick_secs = 40; s.thorough_secs = 600;
